@@ -44,6 +44,30 @@ def minFloat (highest : Float) (n : Nat) (px : List (Float × Int)) : Array Floa
 def dblMax : Float := Float.ofBits 0x7FEFFFFFFFFFFFFF
 def fltMax : Float := Float.ofBits 0x47EFFFFFE0000000
 
+/-! ### the exact per-label oracles of the driver for `labeled_sum/max/min` (unbounded integers) -/
+
+/-- slot `l` = the exact integer sum of the values labelled `l` -/
+def sumSpec (n : Nat) (px : List (Int × Int)) : List Int :=
+  (List.range n).map fun (l : Nat) => (valuesOf px (l : Int)).foldl (· + ·) 0
+
+/-- bool images: slot `l` = 1 iff some pixel labelled `l` is set -/
+def orSpec (n : Nat) (px : List (Int × Int)) : List Int :=
+  (List.range n).map fun (l : Nat) => if (valuesOf px (l : Int)).any (· ≠ 0) then 1 else 0
+
+/-- slot `l` = the maximum of the values labelled `l` (0 for an empty label: not compared) -/
+def maxSpec (n : Nat) (px : List (Int × Int)) : List Int :=
+  (List.range n).map fun (l : Nat) => (valuesOf px (l : Int)).foldl max ((valuesOf px (l : Int)).headD 0)
+
+def minSpec (n : Nat) (px : List (Int × Int)) : List Int :=
+  (List.range n).map fun (l : Nat) => (valuesOf px (l : Int)).foldl min ((valuesOf px (l : Int)).headD 0)
+
+/-- the `spec=` field of `kind=fold` (for float data: on the scaled integers, then `Float.ofInt · / scale`) -/
+def foldSpec (isBool : Bool) (op : String) (n : Nat) (px : List (Int × Int)) : List Int :=
+  match op with
+  | "sum" => if isBool then orSpec n px else sumSpec n px
+  | "max" => maxSpec n px
+  | _ => minSpec n px
+
 /-! ### histogram / sizes -/
 
 /-- `compute_histogram` into a zeroed array of `n` bins -/
@@ -356,13 +380,7 @@ def handle (a : Args) : String :=
         | _ => minFloat big n px
       -- exact specification on the scaled integers
       let ipx := data.zip labels
-      let spec := (List.range n).map fun (l : Nat) =>
-        let vs := valuesOf ipx (l : Int)
-        let v : Int := match op with
-          | "sum" => vs.foldl (· + ·) 0
-          | "max" => vs.foldl max (vs.headD 0)
-          | _ => vs.foldl min (vs.headD 0)
-        Float.ofInt v / scale
+      let spec := (foldSpec false op n ipx).map fun (v : Int) => Float.ofInt v / scale
       s!"model={showFloats model.toList} spec={showFloats spec} cnt={showNats cnt}"
     else
       let dt := DT.ofName dtn
@@ -371,12 +389,7 @@ def handle (a : Args) : String :=
         | "sum" => sumInt dt n px
         | "max" => maxInt dt n px
         | _ => minInt dt n px
-      let spec := (List.range n).map fun (l : Nat) =>
-        let vs := valuesOf px (l : Int)
-        match op with
-        | "sum" => if dt.isBool then (if vs.any (· ≠ 0) then 1 else 0) else vs.foldl (· + ·) 0
-        | "max" => vs.foldl max (vs.headD 0)
-        | _ => vs.foldl min (vs.headD 0)
+      let spec := foldSpec dt.isBool op n px
       s!"model={showInts model.toList} spec={showInts spec} cnt={showNats cnt}"
   | "hist" =>
     let h := fullHistogram (a.str "dt" == "b1") data
